@@ -51,10 +51,11 @@ type Layout struct {
 }
 
 type printer struct {
-	toks  []tok
-	depth int
-	lay   *Layout
-	pend  tokFlag
+	toks   []tok
+	depth  int
+	lay    *Layout
+	pend   tokFlag
+	breaks []int
 }
 
 func (p *printer) ch() Chooser {
@@ -75,12 +76,20 @@ func (p *printer) t(s string, flags ...tokFlag) {
 
 // Print renders the main chunk's block.
 func Print(b *luaref.Block, lay *Layout) string {
+	s, _ := PrintWithBreaks(b, lay)
+	return s
+}
+
+// PrintWithBreaks also returns the byte offsets that directly follow a line break used as a token separator (never
+// inside a token): whole lines (blank, comment-only) can be inserted there without changing any token.
+func PrintWithBreaks(b *luaref.Block, lay *Layout) (string, []int) {
 	if lay == nil {
 		lay = &Layout{}
 	}
 	p := &printer{lay: lay}
 	p.block(b)
-	return p.join()
+	s := p.join()
+	return s, p.breaks
 }
 
 func (p *printer) block(b *luaref.Block) {
@@ -573,13 +582,19 @@ func (p *printer) join() string {
 				switch {
 				case t.flags&fStmtStart != 0:
 					b.WriteString(nl())
+					p.breaks = append(p.breaks, b.Len())
 					b.WriteString(strings.Repeat("  ", t.depth))
 				case glue && !needsSpace(prev.s, t.s):
 				default:
 					b.WriteByte(' ')
 				}
 			} else {
-				b.WriteString(p.wildSep(prev, t, noNL, nl))
+				sep := p.wildSep(prev, t, noNL, nl)
+				// a separator that contains a line break: the offset after its last line-break character is a break
+				if j := strings.LastIndexAny(sep, "\n\r"); j >= 0 {
+					p.breaks = append(p.breaks, b.Len()+j+1)
+				}
+				b.WriteString(sep)
 			}
 		}
 		b.WriteString(t.s)
